@@ -156,6 +156,74 @@ pub fn vsimulate(m: &VMachine, k0: u64) -> (Vec<(String, u64)>, u64) {
   }
 }
 
+/// third family: two payload fields, guards that compare them, updates that subtract, move or swap them
+#[derive(Clone, Debug)]
+pub struct TMachine { pub branches: Vec<usize>, pub out: usize, pub arrow: &'static str, pub shape: String }
+pub const TBRANCH: [(&str, &str, &str); 6] = [
+  ("p > q", "p - q, q", "sub-pq"), ("q > p", "p, q - p", "sub-qp"), ("p > 0u64", "p - 1u64, q + 1u64", "move-pq"),
+  ("q > 0u64", "p + 1u64, q - 1u64", "move-qp"), ("p > q", "q, p", "swap"), ("p == q", "p - 1u64, q", "dec-on-equal")];
+pub const TOUT: [(&str, &str); 3] = [("p", "p"), ("q", "q"), ("p * 10u64 + q", "p10q")];
+
+pub fn tmachines(tier: Tier) -> Vec<TMachine> {
+  let mut out = vec![];
+  let mut sels: Vec<Vec<usize>> = vec![];
+  for a in 0..TBRANCH.len() { sels.push(vec![a]); for b in 0..TBRANCH.len() { if a != b { sels.push(vec![a, b]); } } }
+  if tier == Tier::Thorough { for a in 0..TBRANCH.len() { for b in 0..TBRANCH.len() { for c in 0..TBRANCH.len() { if a != b && b != c && a != c && (a + 2 * b + 3 * c) % 4 == 0 { sels.push(vec![a, b, c]); } } } } }
+  for sel in sels { for o in 0..TOUT.len() { for arrow in ["->", "~>"] {
+    out.push(TMachine { branches: sel.clone(), out: o, arrow, shape: format!("two-payloads:{}:out-{}:{}", sel.iter().map(|i| TBRANCH[*i].2).collect::<Vec<_>>().join(","), TOUT[o].1, arrow) });
+  } } }
+  out
+}
+
+pub fn trender(m: &TMachine, a: &str, b: &str) -> String {
+  let mut s = String::from("#T(a<u64>, b<u64>) => <u64>\n  ├ :S(p<u64>, q<u64>)\n  └ :D(r<u64>).\n\n#T(a<u64>, b<u64>) -> :S(a, b)\n  :S(p, q)\n");
+  for i in &m.branches { s.push_str(&format!("    ├ {} {} :S({})\n", TBRANCH[*i].0, m.arrow, TBRANCH[*i].1)); }
+  s.push_str(&format!("    └ * -> :D({})\n  :D(r) => r.\n\nr := #T({})", TOUT[m.out].0, if b.is_empty() { a.to_string() } else { format!("{}, {}", a, b) }));
+  s
+}
+
+pub enum TSim { Done(Vec<(String, Vec<u64>)>, u64), Loops, Arithmetic }
+pub fn tsimulate(m: &TMachine, a: u64, b: u64, horizon: usize) -> TSim {
+  let (mut p, mut q) = (a, b);
+  let mut seq = vec![("S".to_string(), vec![p, q])];
+  for _ in 0..horizon {
+    let hit = m.branches.iter().find(|i| match **i { 0 | 4 => p > q, 1 => q > p, 2 => p > 0, 3 => q > 0, _ => p == q });
+    match hit {
+      Some(i) => {
+        let next = match *i { 0 => p.checked_sub(q).map(|x| (x, q)), 1 => q.checked_sub(p).map(|x| (p, x)), 2 => p.checked_sub(1).map(|x| (x, q + 1)), 3 => q.checked_sub(1).map(|x| (p + 1, x)), 4 => Some((q, p)), _ => p.checked_sub(1).map(|x| (x, q)) };
+        match next { Some((np, nq)) => { p = np; q = nq; seq.push(("S".to_string(), vec![p, q])); } None => return TSim::Arithmetic }
+      }
+      None => { let out = match m.out { 0 => p, 1 => q, _ => p * 10 + q }; seq.push(("D".to_string(), vec![out])); return TSim::Done(seq, out); }
+    }
+  }
+  TSim::Loops
+}
+
+/// (state name, every payload field) of every `step` trace event
+fn observed_sequence_fields(i: &Interpreter) -> Vec<(String, Vec<u64>)> {
+  let mut v = vec![];
+  for e in i.trace_events() {
+    if e.label.as_deref().map(|l| l.trim()) != Some("step") { continue; }
+    let msg = e.message;
+    let name = msg.split_whitespace().find(|w| w.starts_with(':')).map(|w| w[1..].split('(').next().unwrap_or("").to_string()).unwrap_or_default();
+    // payload fields are printed as kind(@address:value)
+    let vals: Vec<u64> = msg.split("u64(@").skip(1).filter_map(|t| t.split(')').next().and_then(|x| x.rsplit(':').next()).and_then(|x| x.parse::<u64>().ok())).collect();
+    v.push((name, vals));
+  }
+  v
+}
+
+fn run_fields(src: &str, max_steps: usize) -> (Result<Canon, String>, Vec<(String, Vec<u64>)>) {
+  let tree = match parse_cached(src) { Some(t) => t, None => return (Err("ParseError".into()), vec![]) };
+  let mut i = Interpreter::new(0);
+  i.set_trace_enabled(true);
+  i.set_trace_to_stdout(false);
+  i.max_steps = max_steps;
+  let r = match catch_unwind(AssertUnwindSafe(|| i.interpret(&tree))) { Ok(Ok(v)) => Ok(canon(&v)), Ok(Err(e)) => Err(e.kind_name()), Err(p) => Err(format!("PANIC:{}", panic_msg(p))) };
+  let seq = observed_sequence_fields(&i);
+  (r, seq)
+}
+
 pub enum Sim { Done(Vec<(String, u64)>, u64), Loops(usize), Stuck, Arithmetic }
 
 /// reference simulator: the visited (state, payload) sequence including the output state, and the result
@@ -186,8 +254,8 @@ fn observed_sequence(i: &Interpreter) -> Vec<(String, u64)> {
   v
 }
 
-pub struct C17 { tier: Tier, ms: Vec<Machine>, vms: Vec<VMachine> }
-impl C17 { pub fn new(tier: Tier) -> C17 { C17 { tier, ms: machines(tier), vms: vmachines(tier) } } }
+pub struct C17 { tier: Tier, ms: Vec<Machine>, vms: Vec<VMachine>, tms: Vec<TMachine> }
+impl C17 { pub fn new(tier: Tier) -> C17 { C17 { tier, ms: machines(tier), vms: vmachines(tier), tms: tmachines(tier) } } }
 
 fn run(src: &str, max_steps: usize) -> (Result<Canon, String>, Vec<(String, u64)>) {
   let tree = match parse_cached(src) { Some(t) => t, None => return (Err("ParseError".into()), vec![]) };
@@ -202,6 +270,37 @@ fn run(src: &str, max_steps: usize) -> (Result<Canon, String>, Vec<(String, u64)
 
 impl UnitRunner for C17 {
   fn unit(&mut self, _payload: &str, unit: u64, out: &mut WorkerOut) {
+    if unit as usize >= self.ms.len() + self.vms.len() {
+      let m = &self.tms[unit as usize - self.ms.len() - self.vms.len()];
+      let top = self.tier.pick(3u64, 4u64);
+      for a in 0..=top { for b in 0..=top {
+        out.evaluations += 1;
+        let src = trender(m, &format!("{}u64", a), &format!("{}u64", b));
+        let case = src.replace('\n', " ⏎ ");
+        let (r, seq) = run_fields(&src, 80);
+        if let Err(e) = &r { if e.starts_with("PANIC") { out.fail(format!("C17|panic|{}", m.shape), case, e.clone()); continue; } if e == "ParseError" { out.count("machine_unparsable"); out.set("unparsable", &m.shape); continue; } }
+        match tsimulate(m, a, b, 60) {
+          TSim::Done(want_seq, want) => {
+            out.nontrivial += 1;
+            match &r {
+              Ok(Canon::Num(kd, t)) if kd == "u64" && t.parse::<u64>().ok() == Some(want) => { if seq != want_seq { out.fail(format!("C17|wrong-trace|{}", m.shape), case, format!("visited {:?}, declaration determines {:?}", seq, want_seq)); } else { out.set("terminating_shapes", &m.shape); } }
+              Ok(o) => out.fail(format!("C17|wrong-output|{}", m.shape), case, format!("declaration determines {}<u64> via {:?}, got {} via {:?}", want, want_seq, o.short(), seq)),
+              Err(e) => out.fail(format!("C17|good-machine-rejected|{}", m.shape), case, format!("declaration determines {}, got Err({})", want, e)),
+            }
+          }
+          TSim::Loops => { out.nontrivial += 1; out.count("non_terminating_runs"); if let Ok(v) = &r { out.fail(format!("C17|limit-not-enforced|{}", m.shape), case, format!("the machine never reaches its output state, returned {}", v.short())); } }
+          TSim::Arithmetic => { out.count("payload_underflow(not judged)"); }
+        }
+      } }
+      // wrong number and wrong kind of arguments must be rejected
+      for (args, what) in [(("3u64".to_string(), String::new()), "one-argument"), (("1.5".to_string(), "2.5".to_string()), "f64-arguments")] {
+        out.evaluations += 1; out.nontrivial += 1;
+        let src = trender(m, &args.0, &args.1);
+        let (r, _) = run_fields(&src, 80);
+        if let Ok(v) = &r { out.fail(format!("C17|bad-call-accepted|{}:{}", what, m.arrow), src.replace('\n', " ⏎ "), format!("returned {}", v.short())); }
+      }
+      return;
+    }
     if unit as usize >= self.ms.len() {
       let m = &self.vms[unit as usize - self.ms.len()];
       for k in 0..=self.tier.pick(3u64, 4u64) {
@@ -273,10 +372,11 @@ impl Check for C17 {
   fn level(&self) -> &'static str { "model_checking" }
   fn unit_budget(&self, _t: Tier) -> Duration { Duration::from_secs(60) }
   fn drive(&mut self, tier: Tier, cfg: &PoolCfg, rep: &mut Report) {
-    let n = (self.ms.len() + self.vms.len()) as u64;
+    let n = (self.ms.len() + self.vms.len() + self.tms.len()) as u64;
     let ms = self.ms.clone();
     let vms = self.vms.clone();
-    rep.describe = Some(Box::new(move |_p, u| if (u as usize) < ms.len() { (ms[u as usize].shape.clone(), render(&ms[u as usize], "3u64").replace('\n', " ⏎ ")) } else { let v = &vms[u as usize - ms.len()]; (v.shape.clone(), vrender(v, 2).replace('\n', " ⏎ ")) }));
+    let tms = self.tms.clone();
+    rep.describe = Some(Box::new(move |_p, u| if (u as usize) < ms.len() { (ms[u as usize].shape.clone(), render(&ms[u as usize], "3u64").replace('\n', " ⏎ ")) } else if (u as usize) < ms.len() + vms.len() { let v = &vms[u as usize - ms.len()]; (v.shape.clone(), vrender(v, 2).replace('\n', " ⏎ ")) } else { let t = &tms[u as usize - ms.len() - vms.len()]; (t.shape.clone(), trender(t, "2u64", "3u64").replace('\n', " ⏎ ")) }));
     drive_ranges(cfg, rep, range_jobs("", n, 2));
     let visited = rep.out.counters.get("visited_states").copied().unwrap_or(0);
     rep.cov("states", json!(rep.out.nontrivial.max(1)));
@@ -285,7 +385,7 @@ impl Check for C17 {
     let _ = visited;
     rep.cov("bounds", json!({"machines": n, "working_states_max": tier.pick(2, 3), "inputs": format!("0..={}", tier.pick(5, 7)), "max_steps_for_runs": 60, "limit_values": [1, 2, 3, 5, 8]}));
     rep.rule = format!("{} machines: every combination of per-state arm shapes (direct transition to every state, countdown, overlapping guards where the first passing guard must win, a shadowed second guard, step-two, a state that is stuck for small payloads) for 1..2 working states (and a deterministic 1-in-7 thinning for 3 working states in the thorough tier) with one u64 payload and an output state, each run on every input 0..{}; \
-      every machine with the synchronous -> and the asynchronous ~> transition operator; a vector-payload family (spread patterns [x … y], [… y], [x …], [a b c] whose state is re-entered with every arrangement of the bound names, k and a constant); ill-formed variants (undeclared target, declared state without an arm, f64 argument, undeclared start state); the run is compared state by state (name and payload, read from the interpreter's own step trace events) and in its result with a reference simulator; the transition limit is checked at max_steps in {{1,2,3,5,8}}. states = runs judged, transitions = runs executed (each run is one trace validated against the implementation)", n, tier.pick(5, 7));
+      every machine with the synchronous -> and the asynchronous ~> transition operator; a vector-payload family (spread patterns [x … y], [… y], [x …], [a b c] whose state is re-entered with every arrangement of the bound names, k and a constant); a two-payload family (:S(p, q) with every ordered selection of 1..2 (3 in the thorough tier, thinned) of six guarded branches that subtract, move or swap the fields, three outputs, on every pair of inputs 0..3 / 0..4, plus calls with one argument and with f64 arguments); ill-formed variants (undeclared target, declared state without an arm, f64 argument, undeclared start state); the run is compared state by state (name and payload, read from the interpreter's own step trace events) and in its result with a reference simulator; the transition limit is checked at max_steps in {{1,2,3,5,8}}. states = runs judged, transitions = runs executed (each run is one trace validated against the implementation)", n, tier.pick(5, 7));
     rep.assumptions = vec!["a configuration in which no guard holds, and payload underflow, are not judged beyond no panic/hang".into(), "the exact off-by-one of the transition limit is not judged (limit >= transitions+2 must succeed, limit < transitions must fail)".into()];
     if rep.out.sets.get("terminating_shapes").map(|s| s.len()).unwrap_or(0) < 20 { rep.vacuity.push("fewer than 20 machine shapes terminated with a compared trace".into()); }
   }
